@@ -148,15 +148,19 @@ def run(ctx):
         res.count('oid-symbols', nt)
         check_set(ctx, obs, reqs, metas)
     # every permutation of the declarations of small modules
-    for i in range(6 if ctx.tier == 'quick' else 40):
+    want_mods = 4 if ctx.tier == 'quick' else 30        # a fixed amount of work whatever the seed
+    got_mods, i = 0, -1
+    while got_mods < want_mods and i < 400:
+        i += 1
         rng = random.Random(base + 7000 + i)
         g = mibgen.SetGen(rng, n_modules=1, size=3)
         g.chains = False
         g.build()
         mn = list(g.modules)[0]
         decls = g.modules[mn]['decls']
-        if len(decls) > 6:
+        if not (4 <= len(decls) <= 5):
             continue
+        got_mods += 1
         for perm in itertools.permutations(decls):
             g.modules[mn]['decls'] = list(perm)
             obs = cg.run_set(base + 7000 + i, mutate=lambda gg, rr, p=perm: gg.modules[list(gg.modules)[0]].__setitem__('decls', list(p)),
